@@ -112,10 +112,20 @@ def gen_program(rng, conflict=None):
 
 
 def run(chk):
-    build, oracle, tables = emucheck.setup(chk, extra_units=("pv", "connect"))   # connect: ovni/mark.c wiring (C17_mark_wiring_from_source_partial)
+    build, oracle, tables = emucheck.setup(chk, extra_units=("pv", "connect", "markread", "codec", "rtbuf", "rtmeta", "rtmark"))   # connect: ovni/mark.c wiring (C17_mark_wiring_from_source_partial); markread: its metadata readers (C17_mark_readers_from_source)
     chk.trusted_base.append("translate/units/connect.py: the connect-time code of ovni/mark.c (and of thread.c, cpu.c, track.c, model_*.c) translated to "
                             "Gallina on every run and run inside Coq from the empty bay (C17_mark_wiring_from_source_partial); hand-written prelude "
-                            "coq/Emu/ConnectPre.v and driver ConnectProofs.connect_all; scan_thread is not translated")
+                            "coq/Emu/ConnectPre.v and driver ConnectProofs.connect_all; the mark types come from the environment there (the readers are unit markread)")
+    chk.trusted_base.append("translate/units/markread.py: parse_number / find_label / add_label / parse_labels / find_mark_type / create_mark_type / parse_mark / "
+                            "scan_thread of src/emu/ovni/mark.c translated statement by statement to coq/Gen/MarkRead_gen.v on every run; hand-written prelude "
+                            "coq/Emu/MarkReadPre.v (parson look-ups as in Rt/RtMetaDefs.v, strtol = Emu/VParsePre.v, uthash tables as insertion-ordered lists with "
+                            "a pending calloc'ed object, snprintf's returned length); mark_create's loop over the threads is MarkReadProofs.run_threads (hand-written); "
+                            "member names contain no NUL byte (C strings)")
+    # unit rtmark (+ codec, rtbuf, rtmeta it builds on): the runtime half, C17_runtime_marks_from_source
+    chk.trusted_base.append("translate/units/rtmark.py (on top of translate/units/rtmeta.py and _stagec.py): ovni_mark_type / ovni_mark_label of "
+                            "src/rt/ovni.c translated to Gallina on every run over coq/Rt/RtMetaPre.v + coq/Rt/RtMarkPre.v (char_at); ovni_mark_push/"
+                            "pop/set are the functions of unit rtbuf (coq/Gen/RtBuf_gen.v over coq/Rt/RtBufPre.v); proved equal to the tree-level model "
+                            "MarkJsonDefs.mstep and to RtBufDefs.step (coq/Proofs/RtMarkGenProofs.v)")
     chk.trusted_base.append("harness/mark_drv.c: script driver on the real libovni with an interposed clock_gettime; calls that may abort are tried in a forked child")
     chk.assumptions = ["threads of the driver run one after the other (concurrency of the runtime is C11's subject)",
                        "events of undefined or mismatching types are written by the runtime and refused in emulation, as the property allows"]
